@@ -510,6 +510,8 @@ class dictable(Dict):
                 f = kwargs_support(function)
                 res = type(self)([row for row in res if f(**row)])
         for key, value in filters.items():
+            if len(res) == 0: # nothing left to filter; a table rebuilt from no records has lost its columns
+                break
             if value is None:
                 res = res[[r is None for r in res[key]]]
             elif is_nan(value):
